@@ -636,7 +636,7 @@ func dischargeAll(obls []*Obligation, dir string, timeout time.Duration, par int
 		if o.Static || o.Kind == "cover" {
 			continue
 		}
-		if (o.Result == "timeout" || o.Result == "unknown") && retried < 4 {
+		if (o.Result == "timeout" || o.Result == "unknown") && retried < 4 && !noSecondPass[o.Name] {
 			// more than a handful of undecided obligations is not scheduling noise: only the first four are retried
 			retried++
 			saved := *o
@@ -652,5 +652,8 @@ func dischargeAll(obls []*Obligation, dir string, timeout time.Duration, par int
 
 // time limit of a ladder rung (seconds), scaled in the second pass
 var rungScale = 1
+
+// obligations that are not retried (listed known findings)
+var noSecondPass = map[string]bool{}
 
 func rung(secs int) time.Duration { return time.Duration(secs*rungScale) * time.Second }
